@@ -1,5 +1,6 @@
 import XlModel.Conc
 import XlModel.Lemmas.Conc
+import XlModel.Lemmas.ConcLin
 /-!
 # C15 — documented concurrency-safe functions are race-free and linearizable
 
@@ -139,7 +140,12 @@ def notCovered : List Loc :=
   [("Rels", "list"), ("File", "sharedStringItem"), ("File", "sharedStringTemp"),
    ("Ws", "MergeCells")]
 
-def allowedUnguarded : List Loc := preloaded ++ readOnly ++ notCovered
+/-- the worksheet cache `File.Sheet` (a `sync.Map`): only the FIRST load of a call matters
+(later `workSheetReader` calls of the same API call hit the cache), see
+`worksheet_first_load_locked` -/
+def firstLoadOnly : List Loc := [("File", "sheetCache")]
+
+def allowedUnguarded : List Loc := preloaded ++ readOnly ++ notCovered ++ firstLoadOnly
 
 /-- **guarded_by_table**: in every API function every access to a shared
 location outside `allowedUnguarded` is made while the mutex of the object it
@@ -229,6 +235,193 @@ theorem covered_locations :
      ("File", "CalcChain"), ("CalcChain", "C"), ("ContentTypes", "list"), ("Drawing", "anchors"),
      ("File", "mediaParts"), ("File", "drawingParts")].all
       (fun x => !allowedUnguarded.contains x) = true := by decide
+
+/-- was `File.mu` held at the first access of the trace to location `x`? (`true` if none) -/
+def firstAccessUnder (g : String) (x : Loc) : List String → List Act → Bool
+  | _, [] => true
+  | h, .acq l :: r => firstAccessUnder g x (l :: h) r
+  | h, .rel l :: r => firstAccessUnder g x (h.erase l) r
+  | h, .rd y :: r => if y = x then h.contains g else firstAccessUnder g x h r
+  | h, .wr y :: r => if y = x then h.contains g else firstAccessUnder g x h r
+
+/-- **worksheet_first_load_locked** (modelled `sync.Map` idiom "load or decode-and-store"):
+every documented function that goes through `workSheetReader` performs its first load of the
+worksheet cache while holding `File.mu`, so two goroutines can not both decode an uncached
+worksheet and lose the updates made through one of the copies (the defect repaired in
+`SetColVisible`, `AddDataValidation`, `DeleteDataValidation`, `setCellTimeFunc`). `Rows` and
+`Cols` only `Load` the cache and are not concerned. -/
+theorem worksheet_first_load_locked :
+    api.all (fun f => firstAccessUnder "File" ("File", "sheetCache") [] (Impl.trace f)) = true := by
+  decide +kernel
+
+/-- **one_worksheet_per_call** (lock *instances*): every followed function that loads a
+worksheet loads the one named by its own `sheet` parameter — so within one API call the
+class-level lock `Ws` and the locations `Ws.*` denote ONE worksheet instance, and workbook-wide
+state (`File.*`, part lists, style tables, shared strings) is never guarded by a worksheet
+mutex in `guardOfClass`: accesses to it under a worksheet mutex only are reported unguarded. -/
+theorem one_worksheet_per_call :
+    wsArgs.all (fun p => p.2.all (fun a => a == "sheet")) = true := by decide
+
+/-- **finding_spill_index_unguarded** (*no data race* clause fails for workbooks opened with
+a small `UnzipXMLSizeLimit`): `getFromStringItem` builds and reads the index of the spilled
+shared-string table (`File.sharedStringItem`, `File.sharedStringTemp`) under no common lock —
+`GetCellValue` reaches it holding only its own worksheet's mutex, so reads on two worksheets
+conflict. The race detector reports it and concurrent readers get WRONG cell values
+(`spill:GetCellValue-wrong-result`). Both locations are in `notCovered`. -/
+theorem finding_spill_index_unguarded :
+    Impl.predictsRace ("File", "sharedStringItem") "GetCellValue" "GetCellValue" = true ∧
+    (Impl.unguarded "GetCellValue").contains ("File", "sharedStringTemp") = true := by decide +kernel
+
+/-! ## linearizability of critical sections -/
+
+/-- **atomic_sections_linearizable** (*linearizable* clause, general form; any lock and
+location types, any number of threads, every interleaving, complete or not).  For a guard
+lock `g` with footprint `F` (the checked locations guarded by `g`), cut the trace `τ` of an
+execution of guarded threads into the sections of `g` (`blocks`): then
+1. the history of footprint accesses of the whole execution is the concatenation of WHOLE
+   sections, in the order in which they were entered — no section is ever interleaved with
+   an access of another thread to the footprint;
+2. the sections of thread `i` are exactly the sections of the part of its program it has
+   executed, in program order;
+3. no access of a thread is lost or reordered in the history.
+So the execution has the same footprint history — and, for any state semantics (see
+`final_state_is_serial`), the same final footprint state — as the *sequential* execution
+that runs the sections one after the other; an operation whose whole effect on `F` lies in
+one section takes effect atomically at that section. -/
+theorem atomic_sections_linearizable {L X : Type} [DecidableEq L] [DecidableEq X]
+    (guard : X → Option L) (chk : X → Bool) (g : L) (progs : List (List (Action L X)))
+    (h : ∀ p ∈ progs, okGuard guard chk [] p = true) {τ : List (Event L X)} {s' : Sys L X}
+    (ex : Exec (initSys progs) τ s') :
+    (blocks g (footprint guard chk g) none τ).flatMap Block.events = projF (footprint guard chk g) τ ∧
+    (∀ i p, progs[i]? = some p → ∃ t' done, s'[i]? = some t' ∧ done ++ t'.rest = p ∧
+      (blocks g (footprint guard chk g) none τ).filter (fun c => c.1 == i) =
+        blocks g (footprint guard chk g) none (tag i done) ∧
+      only i (projF (footprint guard chk g) τ) = projF (footprint guard chk g) (tag i done)) := by
+  have hd : disc g (footprint guard chk g) none τ = true :=
+    exec_disc guard chk g ex none (mutex_init progs) (nodup_init progs) (init_guard guard chk progs h)
+      (by
+        intro t ht
+        simp only [initSys, List.mem_map] at ht
+        obtain ⟨p, _, rfl⟩ := ht
+        simp)
+  refine ⟨?_, ?_⟩
+  · have := blocks_flat g (footprint guard chk g) τ none (by simpa using hd)
+    simpa [curEvents] using this
+  · intro i p hp
+    have hi : (initSys progs)[i]? = some ⟨[], p⟩ := by simp [initSys, hp]
+    obtain ⟨t', ht', done, hdone, hrest⟩ := exec_proj ex i ⟨[], p⟩ hi
+    refine ⟨t', done, ht', hrest, ?_, ?_⟩
+    · have := blocks_filter g (footprint guard chk g) i τ none (by simpa using hd)
+      simpa [curOf, hdone] using this
+    · rw [projF_only, hdone]
+
+/-- the final footprint state of ANY interleaving, under any state semantics `apply`, is the
+final state of running the sections one after the other -/
+theorem final_state_is_serial {L X : Type} [DecidableEq L] [DecidableEq X]
+    (guard : X → Option L) (chk : X → Bool) (g : L) (progs : List (List (Action L X)))
+    (h : ∀ p ∈ progs, okGuard guard chk [] p = true) {τ : List (Event L X)} {s' : Sys L X}
+    (ex : Exec (initSys progs) τ s') {σ : Type} (apply : σ → Event L X → σ) (σ0 : σ) :
+    (projF (footprint guard chk g) τ).foldl apply σ0 =
+      ((blocks g (footprint guard chk g) none τ).flatMap Block.events).foldl apply σ0 := by
+  rw [(atomic_sections_linearizable guard chk g progs h ex).1]
+
+/-- the sections of lock `g` that one call of `f` by thread `i` contributes -/
+def callBlocks (g : String) (i : Nat) (f : String) : List (Block String Loc) :=
+  blocks g (footprint guardOf chkLoc g) none (tag i (Impl.trace f))
+
+/-- every API call opens and closes its worksheet / style-sheet sections itself -/
+theorem api_sections_closed :
+    api.all (fun f => closed "Ws" false (Impl.trace f) && closed "Styles" false (Impl.trace f)) = true := by
+  decide +kernel
+
+/-- **setters_linearizable** (*linearizable* clause for the code, per worksheet grid and per
+style sheet): for any number of goroutines calling any sequences of the documented
+functions, in every complete interleaving, the history of accesses to the worksheet
+(`g = "Ws"`) resp. the style tables (`g = "Styles"`) is a concatenation of whole critical
+sections, and the sections contributed by goroutine `i` are, call by call and in program
+order, the sections `callBlocks g i f` of its calls. -/
+theorem setters_linearizable (g : String) (hg : g = "Ws" ∨ g = "Styles") (threads : List (List String))
+    (hapi : ∀ th ∈ threads, ∀ f ∈ th, f ∈ api) {τ : List (Event String Loc)} {s' : Sys String Loc}
+    (ex : Exec (initSys (threads.map threadOf)) τ s') (hf : Finished s') :
+    (blocks g (footprint guardOf chkLoc g) none τ).flatMap Block.events =
+      projF (footprint guardOf chkLoc g) τ ∧
+    ∀ i calls, threads[i]? = some calls →
+      (blocks g (footprint guardOf chkLoc g) none τ).filter (fun c => c.1 == i) =
+        (calls.map (callBlocks g i)).flatten := by
+  have hgd : ∀ p ∈ threads.map threadOf, okGuard guardOf chkLoc [] p = true := by
+    intro p hp
+    obtain ⟨th, hth, rfl⟩ := List.mem_map.mp hp
+    exact thread_guarded (hapi th hth)
+  obtain ⟨h1, h2⟩ := atomic_sections_linearizable guardOf chkLoc g _ hgd ex
+  refine ⟨h1, ?_⟩
+  intro i calls hc
+  obtain ⟨t', done, ht', hrest, hb, _⟩ := h2 i (threadOf calls) (by simp [hc])
+  have hfin : t'.rest = [] := hf t' (mem_of_get ht')
+  rw [hfin, List.append_nil] at hrest
+  rw [hb, hrest]
+  have hcl : ∀ p ∈ calls.map Impl.trace, closed g false p = true := by
+    intro p hp
+    obtain ⟨f, hfm, rfl⟩ := List.mem_map.mp hp
+    have := List.all_eq_true.mp api_sections_closed f (hapi calls (mem_of_get hc) f hfm)
+    simp only [Bool.and_eq_true] at this
+    rcases hg with rfl | rfl
+    · exact this.1
+    · exact this.2
+  have := (blocks_flatten g (footprint guardOf chkLoc g) i (calls.map Impl.trace) hcl).1
+  simp only [threadOf]
+  rw [this]
+  simp only [List.map_map, Function.comp_def]
+  rfl
+
+/-- the typed cell setters, `SetCellStyle`, the column setters and the data-validation
+functions contribute at most ONE worksheet section per call (their whole effect on the
+worksheet is atomic); with `setters_linearizable` the worksheet history of any run is a
+sequence of whole calls: last writer wins per cell. `SetSheetRow`/`SetCellValue` (a loop /
+a type switch over these setters) and `SetColStyle` (column entry, then one `SetCellStyle`
+per column) are the exceptions. -/
+theorem atomic_calls :
+    ["SetCellInt", "SetCellUint", "SetCellBool", "SetCellStr", "SetCellDefault", "SetCellStyle",
+     "GetCellStyle", "SetColWidth", "SetColVisible", "GetColWidth", "GetColVisible", "GetColStyle",
+     "AddDataValidation", "DeleteDataValidation"].all
+      (fun f => (callBlocks "Ws" 0 f).length ≤ 1) = true := by decide +kernel
+
+/-- the shape of `callBlocks` does not depend on the goroutine -/
+theorem callBlocks_any_thread (g : String) (i : Nat) (f : String) :
+    callBlocks g i f = (callBlocks g 0 f).map fun c => (i, c.2) := by
+  have := blocks_tag g (footprint guardOf chkLoc g) i (Impl.trace f) none
+  simpa [callBlocks] using this
+
+/-- **distinct_cells_all_present** (clause "all writes to distinct cells are present"): in
+every complete interleaving each goroutine's accesses to the worksheet appear in the
+worksheet history completely and in program order — no write is lost from the history, and
+(by `setters_linearizable`) none is torn apart by another goroutine's access. -/
+theorem distinct_cells_all_present (threads : List (List String))
+    (hapi : ∀ th ∈ threads, ∀ f ∈ th, f ∈ api) {τ : List (Event String Loc)} {s' : Sys String Loc}
+    (ex : Exec (initSys (threads.map threadOf)) τ s') (hf : Finished s') :
+    ∀ i calls, threads[i]? = some calls →
+      only i (projF (footprint guardOf chkLoc "Ws") τ) =
+        projF (footprint guardOf chkLoc "Ws") (tag i (threadOf calls)) := by
+  have hgd : ∀ p ∈ threads.map threadOf, okGuard guardOf chkLoc [] p = true := by
+    intro p hp
+    obtain ⟨th, hth, rfl⟩ := List.mem_map.mp hp
+    exact thread_guarded (hapi th hth)
+  intro i calls hc
+  obtain ⟨t', done, ht', hrest, _, hp⟩ :=
+    (atomic_sections_linearizable guardOf chkLoc "Ws" _ hgd ex).2 i (threadOf calls) (by simp [hc])
+  have hfin : t'.rest = [] := hf t' (mem_of_get ht')
+  rw [hfin, List.append_nil] at hrest
+  rw [hp, hrest]
+
+/-- **style_ids_denote_request** (clause "every style id handed to a goroutine denotes the
+style it asked for"): one `NewStyle` call is ONE section of the style-sheet mutex, and that
+section contains both the look-up (reads) and the append (writes) of the style tables; by
+`setters_linearizable` no other goroutine's access to the style tables falls between them,
+so the id computed from the table length is the index of the entry this call appended (or
+found). -/
+theorem style_ids_denote_request :
+    (callBlocks "Styles" 0 "NewStyle").length = 1 ∧
+    (callBlocks "Styles" 0 "NewStyle").all (fun c =>
+      c.2.any (fun a => a.isWrite) && c.2.any (fun a => !a.isWrite)) = true := by decide +kernel
 
 /-! ### critical sections of the setters (linearization points) -/
 
